@@ -517,3 +517,9 @@ Theorem C06_smt_extract_concat m k x y : 0 < m -> 0 < k -> 0 <= y < 2 ^ m -> 0 <
   bvextract (m - 1) 0 (bvconcat m x y) = y /\ bvextract (m + k - 1) m (bvconcat m x y) = x.
 Proof. exact (smt_extract_concat m k x y). Qed.
 Print Assumptions C06_smt_extract_concat.
+
+(* ((_ sign_extend k) x) for x of width n, bit by bit *)
+Theorem C06_smt_sext_bits n k x i : 0 < n -> 0 <= k -> 0 <= x < 2 ^ n -> 0 <= i < n + k ->
+  Z.testbit (bvsext n k x) i = if i <? n then Z.testbit x i else Z.testbit x (n - 1).
+Proof. exact (smt_sext_bits n k x i). Qed.
+Print Assumptions C06_smt_sext_bits.
